@@ -165,6 +165,10 @@ def check_C08(tier):
                     ("Z1", dict(n=4, mx=3), dict(pre=["a.out_3_w"])), ("Z1", dict(n=5, mx=4), dict(pre=["a.out_2_v", "a.out_5_z"])),
                     ("Z3", dict(n=4, mx=3), dict(pre=["a.out_3", "b.out_2"])), ("Z4", dict(n=4, mx=3, buf=1)), ("Z4", dict(n=6, mx=2, buf=2))],
         gen=20 if tier == "thorough" else 6, nvar=8 if tier == "thorough" else 4,
+        # streaming out-ports are emitted before their task starts - in arrival order like every other port
+        extra_real=[("ST6", dict(name="ST6", max=12, bufsize=4,
+                                 procs=[zoo.src("s", zoo.items(6)), dict(name="p", kind="cmd", ins=["in"], outs=["out"], streams=["out"]), zoo.cmd("c", ["in"], ["out"])],
+                                 edges=[zoo.E("s.out", "p.in"), zoo.E("p.out", "c.in")]))],
         weak_cases=[("Z1", dict(n=2), "AnyDoneOrder", "C08_Order")],
         rule="closed: tasks finish in every order; real: jittered runs, per-connection send order compared with task creation order "
              "(C08_Order / M_C08_Order on the recorded trace) and per-upstream order through fan-in (C04_Prefix)")
